@@ -290,6 +290,10 @@ class ReportCheck:
 
     def run(self, tier, rng, log):
         cases = [(c['ro'], c.get('meta', {})) for c in corpus_cases(self.pid, 'state')] + list(states(tier, rng))
+        base = list(cases)
+        for _ in range(300 if tier == 'quick' else 3000):           # structural neighbours (gens.mutate_doc)
+            t, meta = rng.choice(base)
+            cases.append((gens.mutate_doc(rng, t, None, n=rng.randrange(1, 4)), {'kind': 'fuzzed'}))
         texts = [t for t, _ in cases]
         model = accessors.model_reports(texts)
         vio, dis, sigs, dist, samples = [], [], set(), {}, []
